@@ -44,19 +44,20 @@ def p_index(df) -> List[Dict[str, Any]]:
     return out
 
 
-def _run(validate, df, vec) -> Dict[str, Any]:
+def _run(validate, df, vec, kind=None) -> Dict[str, Any]:
     import pandas as pd
     import pandera as pa
 
+    kind = kind or pd.DataFrame
     out: Dict[str, Any] = {}
     snap = proj.snapshot(df)
     before = p_index(df)
     try:
         res = validate(df, lazy=bool(vec["opts"]["lazy"]), inplace=bool(vec["opts"]["inplace"]))
         out["kind"] = "ok"
-        out["type_ok"] = type(res) is pd.DataFrame
+        out["type_ok"] = type(res) is kind
         out["returned"] = p_index(res)
-        out["x_ok"] = list(res["x"]) == list(range(len(res)))
+        out["x_ok"] = list(res["x"] if kind is pd.DataFrame else res) == list(range(len(res)))
         out["same_object"] = res is df
     except pa.errors.SchemaErrors as e:
         out["kind"] = "SchemaErrors"
@@ -83,4 +84,8 @@ def observe_multiindex(vec: Dict[str, Any]) -> Dict[str, Any]:
         comp2, df2 = build(vec)
         schema = pa.DataFrameSchema({"x": pa.Column(int)}, index=comp2)
         out["in_schema"] = _run(schema.validate, df2, vec)
+        import pandas as pd
+
+        comp3, df3 = build(vec)
+        out["in_series"] = _run(pa.SeriesSchema(int, index=comp3).validate, df3["x"], vec, kind=pd.Series)
     return out
